@@ -336,7 +336,13 @@ def run(spec):
                         # the particles re-labelled on the live move through the documented set_labels(): every clause
                         # again with the new labelling
                         labels = gen_labels(rng, n)
-                        m.set_labels(labels.copy())
+                        if rng.random() < 0.5:
+                            m.set_labels(labels.copy())
+                        else:
+                            # the user's own array edited in place and handed to set_labels again
+                            arr = m.labels
+                            arr[...] = labels
+                            m.set_labels(arr)
                         rec.count("relabelled_live_moves")
                     nn = labels[labels >= 0]
                     if len(nn) and rng.random() < 0.3:
